@@ -43,7 +43,7 @@ def violation_table(tier):
 
 
 DLG_ID = ("C11 same-cluster ObjectSetPhase controller: write although an object of the phase violates preflight, or write outside "
-          "the ObjectSetPhase's namespace / on a cluster-scoped kind")
+          "the ObjectSetPhase's namespace / on a cluster-scoped kind, or the violation is not reported as Available=False/PreflightError")
 
 
 def phase_controller_violations():
